@@ -115,8 +115,8 @@ def make_header(ilines, xlines, samples, tracecount, hw_info, bits_per_voxel, bl
             buffer[32:36] = np_float_to_bytes_signed(xlines[1] - xlines[0])
             buffer[36:40] = np_float_to_bytes_signed(ilines[1] - ilines[0])
         else:
-            buffer[32:36] = np_float_to_bytes_signed(np.int32(geom.il_step))
-            buffer[36:40] = np_float_to_bytes_signed(np.int32(geom.xl_step))
+            buffer[32:36] = np_float_to_bytes_signed(np.int32(geom.xl_step))
+            buffer[36:40] = np_float_to_bytes_signed(np.int32(geom.il_step))
 
         compressed_data_length_diskblocks = int(((bits_per_voxel *
                                                   pad(len(samples), blockshape[2]) *
